@@ -646,6 +646,57 @@ def emit_consts():
                '; '.join('"%s"' % f for f in sorted(fields)), '; '.join('("%s", "%s")' % (a, b.strip().replace('"', "'")) for a, b in sorted(assigns))))
 
 
+# ---------------------------------------------------------------- persisted / wire formats
+def serde_struct(src, name):
+    """(struct-level serde attributes, [(wire name, kind)]) of a struct with derived Deserialize; kind = opt (an Option
+    without attributes: a missing member is None), default (#[serde(default...)]), skip, or req"""
+    m = re.search(r'((?:#\[[^\]]*\]\s*)*)(?:pub(?:\([^)]*\))?\s+)?struct %s\s*\{(.*?)\n\}' % name, src, flags=re.S)
+    if not m:
+        raise Bad('struct %s not found' % name)
+    sattrs = sorted(a.strip() for a in ','.join(re.findall(r'#\[serde\((.*?)\)\]', m.group(1), flags=re.S)).split(',') if a.strip())
+    if 'Deserialize' not in m.group(1):
+        raise Bad('struct %s does not derive Deserialize' % name)
+    fields = []
+    for fm in re.finditer(r'((?:#\[[^\]]*\]\s*)*)(?:pub(?:\([^)]*\))?\s+)?(\w+)\s*:\s*([^,\n]+(?:<[^\n]*>)?)\s*,', m.group(2)):
+        attrs = ','.join(re.findall(r'#\[serde\((.*?)\)\]', fm.group(1), flags=re.S))
+        wire = fm.group(2)
+        rn = re.search(r'rename\s*=\s*"([^"]*)"', attrs)
+        if rn:
+            wire = rn.group(1)
+        ty = fm.group(3).strip()
+        other = [a.strip() for a in attrs.split(',') if a.strip() and not a.strip().startswith('rename') and not a.strip().startswith('default') and not a.strip().startswith('skip')]
+        kind = 'skip' if re.search(r'\bskip', attrs) else 'default' if re.search(r'\bdefault\b', attrs) else 'opt' if ty.startswith('Option<') else 'req'
+        if other:
+            kind += '+' + '+'.join(sorted(other))
+        fields.append((wire, kind))
+    if not fields:
+        raise Bad('struct %s: no fields recognised' % name)
+    return sattrs, sorted(fields)
+
+
+def emit_persisted():
+    us = strip_comments(strip_tests(open(os.path.join(REPO, 'library/src/cache/updater_state.rs')).read()))
+    pm = strip_comments(strip_tests(open(os.path.join(REPO, 'library/src/cache/patch_manager.rs')).read()))
+    ev = strip_comments(strip_tests(open(os.path.join(REPO, 'library/src/events.rs')).read()))
+    net = strip_comments(strip_tests(open(os.path.join(REPO, 'library/src/network.rs')).read()))
+    rows = []
+    for src, name in ((us, 'SerializedState'), (ev, 'PatchEvent'), (pm, 'PatchesState'), (pm, 'PatchMetadata'), (net, 'PatchCheckResponse'), (net, 'Patch')):
+        sattrs, fields = serde_struct(src, name)
+        rows.append('  ("%s", [%s], [%s])' % (name, '; '.join('"%s"' % a.replace('"', "'") for a in sattrs),
+                                             '; '.join('("%s", "%s")' % (w, k.replace('"', "'")) for w, k in fields)))
+    # how the two state files are read and written
+    dio = strip_comments(strip_tests(open(os.path.join(REPO, 'library/src/cache/disk_io.rs')).read()))
+    rd = 'from_reader' if re.search(r'serde_json::from_reader', dio) else 'other'
+    wr = 'to_writer_pretty' if re.search(r'serde_json::to_writer_pretty', dio) else 'to_writer' if re.search(r'serde_json::to_writer', dio) else 'other'
+    return ('(* GENERATED by tools/translate.py from /repo — do not edit. *)\n'
+            'From Coq Require Import List String.\nImport ListNotations.\nOpen Scope string_scope.\n\n'
+            '(* every struct whose JSON text the model reads: (name, struct-level serde attributes, members sorted by wire name\n'
+            '   with their kind: req = required, opt = Option without attributes (missing = None), default = #[serde(default)]) *)\n'
+            'Definition gen_wire_structs : list (string * list string * list (string * string)) :=\n [\n%s\n ].\n'
+            'Definition gen_state_file_reader : string := "%s".\nDefinition gen_state_file_writer : string := "%s".\n'
+            % (';\n'.join(rows), rd, wr))
+
+
 def write_if_changed(path, text):
     old = open(path).read() if os.path.exists(path) else None
     if old != text:
@@ -655,7 +706,7 @@ def write_if_changed(path, text):
 def main():
     os.makedirs(GEN, exist_ok=True)
     failed = []
-    for name, fn in (('AbiTables', emit_abi), ('PanicSites', emit_panics), ('Consts', emit_consts), ('LockSites', emit_locks)):
+    for name, fn in (('AbiTables', emit_abi), ('PanicSites', emit_panics), ('Consts', emit_consts), ('LockSites', emit_locks), ('WireFormats', emit_persisted)):
         try:
             write_if_changed(os.path.join(GEN, name + '.v'), fn())
         except Bad as e:
